@@ -500,6 +500,56 @@ theorem shared_source_loses_documents :
       | .error _ => []) = [0, 1, 2, 3] := by
   decide +kernel
 
+/-! ### the key of the parameter-source dict: the task, not the operation it references -/
+
+/-- what task `t` does depends on its own allocations only: other tasks in the same columns — also tasks built
+    from the same named operation — can be removed without changing anything -/
+theorem other_tasks_do_not_matter (o : Oracle) (cfg : Cfg) (corpora : List (Corpus α)) (t : Nat)
+    (cols : List (List Alloc.Entry × (Nat → List Nat))) :
+    runTaskColumns o cfg corpora t cols
+      = runTaskColumns o cfg corpora t (cols.map fun col => (entriesOfTask t col.1, col.2)) := by
+  unfold runTaskColumns
+  congr 1
+  rw [List.map_map]
+  apply List.map_congr_left
+  intro col _
+  simp only [Function.comp, entriesOfTask, List.filter_filter, Bool.and_self]
+
+/-- **race_cover_per_task**: every leaf task is ingested exactly once on its own.  `cols` = the columns of all workers with
+    ALL their allocations (several tasks of a `parallel` element may reference one and the same bulk operation, with equal
+    or different client counts).  `AsyncIoAdapter.run` keys the sources by task (`runTaskColumns`), so if the client-index
+    ranges of task `t`'s own allocations cut `0..c-1` and its columns run to the end, the bulks handed out to the clients
+    of task `t` contain every line of every corpus file exactly once — whatever the other tasks do. -/
+theorem race_cover_per_task {o : Oracle} (hok : OracleOK o) {cfg : Cfg} (hl : cfg.looped = false) (hpct : cfg.pct = 100)
+    (hbulk : 0 < cfg.bulkSize) (hbatch : 0 < cfg.batchSize) {c : Nat} (hc : 1 ≤ c)
+    {corpora : List (Corpus α)} (hwf : ∀ d ∈ corpora.flatten, d.WF) (t : Nat)
+    {cols : List (List Alloc.Entry × (Nat → List Nat))} {outs : List (List (Nat × Bulk α) × List Nat)}
+    (hrun : runTaskColumns o cfg corpora t cols = .ok outs) (hstop : ∀ res ∈ outs, res.2 ≠ [])
+    {ranges' ranges : List (Nat × Nat)}
+    (hcols : List.Forall₂ (ColOK o cfg corpora c) (cols.map fun col => (entriesOfTask t col.1, col.2 t)) ranges')
+    (hperm : ranges'.Perm ranges) (hcut : Cut 0 c ranges) :
+    (outs.flatMap linesOfRun).Perm (corpora.flatten.flatMap (·.lines)) :=
+  race_cover_columns hok hl hpct hbulk hbatch hc hwf hrun hstop hcols hperm hcut
+
+/-- … and the key matters: `parallel[A(2 clients), B(2 clients)]`, both tasks built from ONE bulk operation, one
+    worker, one column, 8 documents, bulk size 1, the four clients asking in turn.  Keyed by task (the code) task A
+    sends the documents 0..7 (and so does B).  Keyed by operation the four allocations would share one live source
+    (partitions 0,1,0,1 of 2): A's clients would pull 0,1,4,5 and B's 2,3,6,7 — each task misses half of the corpus. -/
+theorem shared_operation_source_splits_corpus :
+    let o : Oracle := ⟨fun _ => 0, fun _ _ => 0, fun _ => 0, fun _ l => l⟩
+    let cfg : Cfg := ⟨1, 1, .none, none, false, none, 100, false⟩
+    let corpora : List (Corpus Nat) := [[⟨[0, 1, 2, 3, 4, 5, 6, 7], 8, false, false⟩]]
+    let a : Alloc.Sub := ⟨0, 2, false, false⟩
+    let b : Alloc.Sub := ⟨1, 2, false, false⟩
+    let column : List Alloc.Entry := [.task a 0 0 4, .task a 1 1 4, .task b 0 2 4, .task b 1 3 4]
+    (match runTaskColumns o cfg corpora 0 [(column, fun _ => [0, 1, 0, 1, 0, 1, 0, 1, 0, 1])] with
+      | .ok outs => outs.flatMap linesOfRun
+      | .error _ => []) = [0, 1, 2, 3, 4, 5, 6, 7] ∧
+    (match runColumnByOperation o cfg corpora column [0, 1, 2, 3, 0, 1, 2, 3, 0, 1, 2, 3] with
+      | .ok (out, _) => (out.filter fun cb => cb.1 < 2).flatMap fun cb => srcLines cb.2.body
+      | .error _ => []) = [0, 1, 4, 5] := by
+  decide +kernel
+
 /-- `number_of_bulks` counts the bulks of the *group* (one contiguous slice per file), not the sum of
     per-client ceilings: 40 documents, 8 clients, bulk size 4, clients 0..3 on one worker → 5 bulks, while the
     clients one by one would need 2 + 2 + 2 + 2 = 8. -/
